@@ -59,10 +59,12 @@ func allConfigs(tier string) []config {
 }
 
 func rsaSizes(tier string) []int {
+	// byte-aligned sizes and sizes whose bit length is not a multiple of 8 (signature length =
+	// ceil(bits/8): a rounding mistake in a length rule shows only there)
 	if tier == "thorough" {
-		return []int{2048, 3072, 4096}
+		return []int{2048, 3072, 4096, 2049, 2052, 2055, 3001}
 	}
-	return []int{2048, 3072}
+	return []int{2048, 3072, 2049, 2052}
 }
 
 func newPool(r *hx.Rng, tier string) *pool {
